@@ -103,7 +103,7 @@ fn object_from_ref<CS: BbsCiphersuite>(template: &PoKSignature<BBSplus<CS>>, p: 
 /// statement (L + 1 of them), `idx`/`dm` = claimed disclosed indexes / scalars.
 /// `abar`, `bbar` with `bbar = t * abar` if `t` is given; `d = k * Bv` if `k` is given.
 #[allow(clippy::too_many_arguments)]
-fn assemble(
+pub fn assemble(
     r: &Ref,
     pk: &G2Projective,
     gens: &[G1Projective],
